@@ -81,7 +81,15 @@ def pred_game(rng, kind=None, stratum=None, n=None, maxsize=8):
         for i in range(n):
             lo, hi = [(15, 20), (-20, -15), (12, 20), (14, 19)][i % 4] if i < 2 or rng.random() < 0.7 else (-20, -14)
             teams.append([(rng.uniform(lo, hi) * beta, beta * 10 ** rng.uniform(-3, -0.5)) for _ in range(sz)])
-        if rng.random() < 0.5:
+        if rng.random() < 0.35:
+            # a hopeless solo, a certain strong team, and an even stronger but very uncertain team: from the solo's side the certain team is
+            # out of reach (probability exactly 0.0 in doubles) while the stronger one is not
+            k1, k2 = rng.randint(3, 5), rng.randint(6, 8)
+            teams = [[(-20.0 * beta, beta * 10 ** rng.uniform(-3, -1))],
+                     [(rng.uniform(14, 16) * beta, 0.01 * beta) for _ in range(k1)],
+                     [(rng.uniform(9, 11) * beta * k1 * 1.6 / k2 + 0.0, rng.uniform(8, 10) * beta) for _ in range(k2)]] + teams[3:n]
+            rng.shuffle(teams)
+        elif rng.random() < 0.5:
             # ... next to a team of uncertain players (sigma ~ 10 beta) whose total lies in between: out of reach for nobody
             teams[-1] = [(rng.uniform(5, 12) * beta, rng.uniform(6, 10) * beta) for _ in range(rng.randint(4, 8))]
             teams[0] = [(-20.0 * beta, beta * 10 ** rng.uniform(-3, -1))]
